@@ -105,11 +105,18 @@ using AnyInner = std::variant<smooth::SO3<S>, double, V2>;
 #elif VH_MODEL == 29
 using M0 = smooth::AnyManifold;
 using AnyInner = smooth::SubManifold<smooth::SE2<S>>;
+#elif VH_MODEL == 30
+using M0 = smooth::SubManifold<std::vector<VX>>;   // run-time dof base, ragged elements
+#elif VH_MODEL == 31
+using M0 = smooth::AnyManifold;
+using AnyInner = std::vector<VX>;
+#elif VH_MODEL == 32
+using M0 = std::variant<std::vector<VX>, smooth::SO3<S>>;
 #else
 #error "unknown VH_MODEL"
 #endif
 // clang-format on
-#if VH_MODEL < 25
+#if VH_MODEL < 25 || VH_MODEL == 30 || VH_MODEL == 32
 using AnyInner = double;  // unused
 #endif
 
@@ -352,21 +359,43 @@ struct Mod<smooth::SubManifold<M>>
   static T sample(Sctx & s)
   {
     constexpr int D = smooth::Dof<M>;
-    static_assert(D > 0);
-    const int mask = s.schoice(1 << D);
-    // origin: numeric content from the shape alone
-    Sctx s0(s.shape * 2654435761ull + s.spos, s.shape);
-    s0.spos = s.spos;
-    s0.st   = static_cast<int>(s.shape % 8);
-    s0.tcls = 1;
-    const M m0 = Mod<M>::sample(s0);
-    const M m  = Mod<M>::sample(s);
-    std::vector<int> fx;
-    for (int i = D - 1; i >= 0; --i)  // handed over in decreasing order: the constructor sorts
-      if (mask & (1 << i)) fx.push_back(i);
-    Eigen::VectorXi fixed(static_cast<Eigen::Index>(fx.size()));
-    for (std::size_t i = 0; i < fx.size(); ++i) fixed(static_cast<Eigen::Index>(i)) = fx[i];
-    return T(m0, m, fixed);
+    if constexpr (D > 0) {
+      const int mask = s.schoice(1 << D);
+      // origin: numeric content from the shape alone
+      Sctx s0(s.shape * 2654435761ull + s.spos, s.shape);
+      s0.spos = s.spos;
+      s0.st   = static_cast<int>(s.shape % 8);
+      s0.tcls = 1;
+      const M m0 = Mod<M>::sample(s0);
+      const M m  = Mod<M>::sample(s);
+      std::vector<int> fx;
+      for (int i = D - 1; i >= 0; --i)  // handed over in decreasing order: the constructor sorts
+        if (mask & (1 << i)) fx.push_back(i);
+      Eigen::VectorXi fixed(static_cast<Eigen::Index>(fx.size()));
+      for (std::size_t i = 0; i < fx.size(); ++i) fixed(static_cast<Eigen::Index>(i)) = fx[i];
+      return T(m0, m, fixed);
+    } else {
+      // run-time dof base: structure (and with it the dof) from the shape stream, then one hashed bit per dimension
+      Sctx s0(s.shape * 2654435761ull + 77, s.shape);
+      s0.spos = s.spos;
+      s0.st   = static_cast<int>(s.shape % 8);
+      s0.tcls = 1;
+      const M m0 = Mod<M>::sample(s0);
+      const M m  = Mod<M>::sample(s);   // same structural stream as m0
+      // number of dimensions counted structurally by the harness (NOT through the library's dof(), which is under test)
+      std::vector<double> cnt;
+      {
+        Sctx sc(1, s.shape);
+        Mod<M>::propose(sc, m0, 0, 0, 0, cnt);
+      }
+      const int n = static_cast<int>(cnt.size());
+      std::vector<int> fx;
+      for (int i = 0; i < n; ++i)
+        if (s.schoice(3) == 0) fx.push_back(i);
+      Eigen::VectorXi fixed(static_cast<Eigen::Index>(fx.size()));
+      for (std::size_t i = 0; i < fx.size(); ++i) fixed(static_cast<Eigen::Index>(fx.size() - 1 - i)) = fx[i];   // decreasing
+      return T(m0, m, fixed);
+    }
   }
   static void propose(Sctx & s, const T & m, int st, int tcls, int dircls, std::vector<double> & out)
   {
@@ -383,6 +412,8 @@ struct Mod<smooth::SubManifold<M>>
     const Eigen::VectorXd full = smooth::rminus(x.m(), y.m());
     o += "{\"full\":";
     qvec(o, full);
+    o += ",\"in\":";
+    Mod<M>::wit(o, x.m(), y.m());
     o += '}';
   }
   static void mutate(T & obj, const T & nv) { obj = nv; }
